@@ -35,17 +35,22 @@ def releaser (cfg : Config) (sh : Shared) : Shared :=
   | some (sh', _) => sh'
   | none => sh
 
+inductive Outcome where
+  | done (sh : Shared) (t : Thread) (yields : Nat)
+  | hang
+  | fault
+
 /-- run thread `t` until it is idle again; after its `k`-th executed CALL the other party releases
-the lock.  Returns (shared, thread, yields) or none when out of fuel / faulted. -/
-def runYield (cfg : Config) (k : Nat) : Nat → Shared → Thread → Nat → Option (Shared × Thread × Nat)
-  | 0, _, _, _ => none
+the lock. -/
+def runYield (cfg : Config) (k : Nat) : Nat → Shared → Thread → Nat → Outcome
+  | 0, _, _, _ => .hang
   | fuel + 1, sh, t, y =>
-    if t.ph = .idle then some (sh, t, y) else
+    if t.ph = .idle then .done sh t y else
     let calling := atCall t
     match tstep cfg sh t junk with
-    | none => none
+    | none => .fault
     | some (sh', t') =>
-      if t'.ph = .fault then none else
+      if t'.ph = .fault then .fault else
       if calling then
         let y' := y + 1
         runYield cfg k fuel (if y' = k then releaser cfg sh' else sh') t' y'
@@ -70,12 +75,14 @@ def modelObs (sim : Sim) : List String → String × Sim
     | none => ("stuck", sim)
   | ["A", k] =>
     match runYield cfgYield (nat! k) 400000 sim.sh { sim.t with ph := .go .acquire 0 } 0 with
-    | some (sh, t, y) => (s!"{y} {sh.lock}", { sh := sh, t := t })
-    | none => ("hang 1", sim)
+    | .done sh t y => (s!"{y} {sh.lock}", { sh := sh, t := t })
+    | .hang => ("hang 1", sim)
+    | .fault => ("panic", {})
   | ["AX", k, a] =>
     match runYield cfgYield (nat! k) 400000 sim.sh { sim.t with ph := .asm .acquire 0 0, att := nat! a } 0 with
-    | some (sh, t, y) => (s!"{y} {sh.lock}", { sh := sh, t := t })
-    | none => ("hang 1", sim)
+    | .done sh t y => (s!"{y} {sh.lock}", { sh := sh, t := t })
+    | .hang => ("hang 1", sim)
+    | .fault => ("panic", {})
   | ["AN"] =>
     -- first Acquire on the free lock; second Acquire spins (yieldFn = nil) until the other
     -- goroutine releases, here after 500 steps of spinning
@@ -101,6 +108,7 @@ def modelObs (sim : Sim) : List String → String × Sim
 implementation reported it). Returns failing clauses and the lock word after. -/
 def oracle (w : Nat) (op obs : List String) : List String × Nat :=
   match op, obs with
+  | _, ["panic"] => (["no-crash"], 0)
   | ["T"], [r, w'] =>
     ((if (r = "1") ≠ (w = 0) then ["try-exact"] else []) ++
      (if w' ≠ "1" then ["try-word"] else []), nat! w')
@@ -113,7 +121,8 @@ def oracle (w : Nat) (op obs : List String) : List String × Nat :=
   | ["AN"], [w'] => (if w' ≠ "1" then ["acquire-word"] else [], nat! w')
   | "S" :: _, [v, lost, word, hang] =>
     ((if v ≠ "0" then ["mutex"] else []) ++ (if lost ≠ "0" then ["handover"] else []) ++
-     (if word ≠ "0" then ["release-frees"] else []) ++ (if hang ≠ "0" then ["deadlock"] else []), 0)
+     (if word ≠ "0" then ["release-frees"] else []) ++
+     (if hang = "1" then ["deadlock"] else if hang ≠ "0" then ["no-crash"] else []), 0)
   | "H" :: _, _ => (["deadlock"], w)
   | _, _ => (["bad-line"], w)
 
@@ -205,6 +214,7 @@ def search (n : Nat) : IO (Bool × Nat) := do
   return (ok, total)
 
 structure St where
+  searched : Bool := false
   stats : Stats := {}
   sim : Sim := {}
   word : Nat := 0
@@ -227,7 +237,7 @@ def processLine (st : St) (line : String) : IO St := do
     if op.head? = some "search" then
       let n := nat! (op.getD 1 "2")
       let (ok, cnt) ← search n
-      st := { st with stats := st.stats.bump s!"search{n}_states" cnt }
+      st := { st with searched := true, stats := st.stats.bump s!"search{n}_states" cnt }
       if ¬ ok then
         IO.println s!"MISMATCH case={st.caseId} op={opS} model=violation impl={obsS}"
         st := { st with stats := st.stats.bump "mismatch" }
@@ -248,7 +258,8 @@ def processLine (st : St) (line : String) : IO St := do
       st := { st with stats := st.stats.bump (if nat! k = 0 then "acquire_free" else "acquire_contended") |>.bump "yields" (nat! (obs.headD "0")) }
     | ["R"], _ => st := { st with stats := st.stats.bump (if st.word = 0 then "release_free" else "release_held") }
     | _, _ => pure ()
-    return { st with sim := sim', word := w' }
+    -- after a crash the harness continues on a fresh lock
+    return { st with sim := (if obs = ["panic"] then {} else sim'), word := w' }
   | _ =>
     match toks line with
     | ["case", id] => return { st with caseId := id, sim := {}, word := 0, stats := st.stats.bump "cases" }
@@ -258,6 +269,11 @@ def processLine (st : St) (line : String) : IO St := do
 def run (lines : Array String) : IO Unit := do
   let mut st : St := {}
   for l in lines do st ← processLine st l
+  if ¬ st.searched then
+    -- the trace carries no search request (e.g. the harness died early): search anyway, it is cheap
+    for n in [2, 3] do
+      let (_, cnt) ← search n
+      st := { st with stats := st.stats.bump s!"search{n}_states" cnt }
   st.stats.print
 
 end Firefly.Replay.C08
